@@ -22,9 +22,9 @@ def Rel.spineNoDedup : Rel → Prop
 /-- Every transfer on the path back-tracking takes whose target already lives in the preferred engine
 has a target covered by the SQL tree-building theorems, when that engine is a SQL engine (nothing is
 required when the preferred engine is an iteration engine). -/
-def Rel.prefTargetsGood (σ : Leaves) (pref : Engine) : Rel → Prop
-  | .unary _ t _ => Rel.prefTargetsGood σ pref t
-  | .transfer _ _ t => (t.engine = pref → pref.kind = .sql → Good σ t) ∧ Rel.prefTargetsGood σ pref t
+def Rel.prefTargetsGood (I : NodeInv) (σ : Leaves) (pref : Engine) : Rel → Prop
+  | .unary _ t _ => Rel.prefTargetsGood I σ pref t
+  | .transfer _ _ t => (t.engine = pref → pref.kind = .sql → Good I σ t) ∧ Rel.prefTargetsGood I σ pref t
   | _ => True
 
 /-- What `backtrack_unary(op, tree, preferred)` promises about the relation `tree'` it returns
